@@ -1,8 +1,8 @@
 """C01 — per-partition produce order; no loss, no duplication under retries.
 
 Proof: lean/AkVerif/Props/C01.lean about the acceptor `AkVerif.Producer` (Model/Producer.lean).
-Tie (T-trace): the real AIOKafkaProducer runs seeded workloads against the simulated cluster with
-seeded fault schedules; the observed history of every partition (accepts, every ProduceRequest the
+Tie (T-trace): the real AIOKafkaProducer (plain, idempotent, transactional) runs seeded workloads
+against the simulated cluster with seeded fault schedules; the observed history of every partition (accepts, every ProduceRequest the
 sender hands to the client with its decoded batches, the broker's decisions, the client-side
 outcome of every request, every future's result) is fed to the Lean acceptor, whose guards are the
 mechanisms of the anchors (single flight, FIFO drain, front re-enqueue with identical producer
@@ -71,7 +71,8 @@ def check_retriable_flags(ctx, env):
 
 
 def only_retriable(sc):
-    return all(not (f["kind"] == "error" and f.get("code") not in P.RETRIABLE_CODES) for f in sc["faults"])
+    return all(not (f["kind"] == "error" and f.get("api") == "Produce" and f.get("code") not in P.RETRIABLE_CODES)
+               for f in sc["faults"])
 
 
 def leader_probe_scenario():
@@ -88,7 +89,8 @@ def leader_probe_scenario():
 
 def placement_scenarios():
     """exhaustive placement of 0-2 faults over the first 10 Produce request ordinals of a fixed script
-    (two partitions on two brokers, three batches each), idempotent and not"""
+    (two partitions on two brokers, three batches each): idempotent, not idempotent, transactional (two
+    transactions, the second aborted)"""
     kinds = [("drop_before", None), ("drop_after", None), ("lose_reply", None), ("error", 6), ("error", 7)]
     tasks = [[["send", 0, 0, 1600000000001], ["send", 1, 0, 1600000000002], ["sleep", 40],
               ["send", 0, 0, 1600000000003], ["send", 1, 0, 1600000000004], ["sleep", 40],
@@ -98,7 +100,9 @@ def placement_scenarios():
     ords = range(10)
     places = [[]] + [[(i, k)] for i in ords for k in kinds] + \
         [[(i, k1), (j, k2)] for i in ords for j in ords if i < j for k1 in kinds for k2 in kinds]
-    for idem in (True, False):
+    txn_tasks = [t[:len(t) // 2] + [["round", "commit"]] + t[len(t) // 2:] for t in tasks]
+    for mode in ("idem", "plain", "txn"):
+        idem = mode != "plain"
         for pl in places:
             faults = []
             for nth, (kind, code) in pl:
@@ -110,7 +114,8 @@ def placement_scenarios():
                         "batch_size": 16384, "compression": None, "request_timeout_ms": 1500, "retry_backoff_ms": 20,
                         "produce_max": 7, "jitter": 0.0, "log_append": False,
                         "seq0": {"0": 0, "1": 2**31 - 400} if idem else {}, "stop_at": None, "faults": faults,
-                        "tasks": tasks})
+                        "tasks": txn_tasks if mode == "txn" else tasks,
+                        **({"txn": True, "last_end": "abort"} if mode == "txn" else {})})
     return out
 
 
@@ -154,6 +159,10 @@ def run(ctx):
         "random fault schedules never leave a partition without a leader (leader changes go to live nodes), so that "
         "the expiry path of finding #10 is exercised only by its dedicated probe",
         "acks=0 is outside C01's quantifier (no reply, no retry); it is exercised by C02",
+        "a transactional producer is modelled as an idempotent producer whose sequence numbers continue across its "
+        "transactions; AddPartitionsToTxn / EndTxn / FindCoordinator are environment (C07/C16), their only trace in a "
+        "partition history is the coordinator's marker, which takes one offset of the log (Ev.marker); whether "
+        "aborted records are visible is not C01's matter",
     ]
     proved = ctx.prove(drivers=["akdriver"])
     env = P.Env(ctx.repo)
@@ -180,14 +189,14 @@ def run(ctx):
         scenarios = [c for c in ctx.replay_cases if isinstance(c, dict) and "tasks" in c]
     else:
         rng = ctx.rng("scenarios")
-        n = 16000 if ctx.thorough else 700
+        n = 18000 if ctx.thorough else 900
         scenarios = [leader_probe_scenario()]
         if ctx.thorough:
             pl = placement_scenarios()
             ctx.coverage["exhaustive_fault_placements"] = len(pl)
             scenarios += pl
         for i in range(n):
-            kind = ("idem", "plain", "mixed", "idem", "clean")[i % 5]
+            kind = ("idem", "plain", "txn", "mixed", "migrate", "idem", "txn", "clean", "migrate")[i % 9]
             sc = P.gen_scenario(rng, i, kind=kind, big=(i % 7 == 0))
             if sc["acks"] == 0:
                 sc["acks"] = 1
@@ -215,7 +224,8 @@ def run(ctx):
         stats["outcomes"][r["outcome"]] = stats["outcomes"].get(r["outcome"], 0) + 1
         for kk, vv in r["faults_fired"].items():
             stats["faults_fired"][kk] = stats["faults_fired"].get(kk, 0) + vv
-        ck = ("idempotent" if sc["idem"] else f"acks={sc['acks']}") + (" stop-midway" if sc["stop_at"] is not None else "")
+        ck = ("transactional" if sc.get("txn") else "idempotent" if sc["idem"] else f"acks={sc['acks']}") + \
+            (" stop-midway" if sc["stop_at"] is not None else "")
         stats["configs"][ck] = stats["configs"].get(ck, 0) + 1
         # a run that does not finish (SimTimeout) is C02's liveness clause; C01 states safety only and is
         # evaluated on whatever the run showed
@@ -277,8 +287,10 @@ def run(ctx):
     ctx.coverage["trace_stats"] = stats
     ctx.coverage["rule"] = (
         "one case = the history of one partition in one simulator run of the real producer: 1-4 concurrent send tasks x "
-        "1-3 partitions x 1-3 brokers, batch size 120..16384, linger 0..10 ms, gzip or none, idempotent (acks=all) or "
-        "not (acks 1/all), Produce v0..v8, sequence counters starting at 0 / anywhere / just below 2^31 / wrapping; "
+        "1-3 partitions x 1-3 brokers, batch size 120..16384, linger 0..10 ms, gzip or none, idempotent (acks=all), "
+        "transactional (2-4 transactions per run, committed or aborted, writing to the same partitions; retriable "
+        "faults also at AddPartitionsToTxn / EndTxn) or not idempotent (acks 1/all); 'migrate' runs: leader changes "
+        "issued by the workload while replies are delayed 0.2-0.9 s and metadata_max_age_ms is 30-300; Produce v0..v8, sequence counters starting at 0 / anywhere / just below 2^31 / wrapping; "
         "faults at the n-th Produce/Metadata request: connection dropped before / after apply, reply lost (request "
         "timeout), NOT_LEADER / LEADER_NOT_AVAILABLE / UNKNOWN_TOPIC_OR_PARTITION / REQUEST_TIMED_OUT / "
         "NOT_ENOUGH_REPLICAS(_AFTER_APPEND) replies (a few with non-retriable codes), delayed replies, leader migration "
